@@ -309,6 +309,46 @@ pub fn trunc_ext_space(bases: Vec<Vec<u8>>) -> ByteSpace {
     })
 }
 
+/// Well-formed SDES packets whose text is cut in the middle of a multi-byte character: every split of a few UTF-8
+/// strings into (PRIV prefix, PRIV value), and into (value of one item, value of the next item) - so that a byte
+/// string that is valid UTF-8 as a whole is not valid piece by piece, and the other way round.
+pub fn sdes_utf8_split_space() -> ByteSpace {
+    let texts: Vec<Vec<u8>> = vec!["\u{e9}".as_bytes().to_vec(), "a\u{e9}b".as_bytes().to_vec(), "\u{20ac}".as_bytes().to_vec(), "x\u{1F600}y".as_bytes().to_vec(), vec![0xC3, 0xA9, 0xC3], vec![0xA9, 0x41], vec![0xFF, 0xFE]];
+    let mut cases: Vec<Vec<u8>> = Vec::new();
+    for t in &texts {
+        for cut in 0..=t.len() {
+            for shape in 0..2 {
+                let (a, b) = t.split_at(cut);
+                let mut body = vec![0x01u8, 0x02, 0x03, 0x04];
+                if shape == 0 {
+                    // PRIV: length, prefix length, prefix, value
+                    body.extend_from_slice(&[8, (1 + t.len()) as u8, a.len() as u8]);
+                    body.extend_from_slice(a);
+                    body.extend_from_slice(b);
+                } else {
+                    body.extend_from_slice(&[1, a.len() as u8]);
+                    body.extend_from_slice(a);
+                    body.extend_from_slice(&[7, b.len() as u8]);
+                    body.extend_from_slice(b);
+                }
+                body.push(0);
+                while body.len() % 4 != 0 {
+                    body.push(0);
+                }
+                let words = body.len() / 4;
+                let mut pkt = vec![0x81u8, 202, (words >> 8) as u8, words as u8];
+                pkt.extend_from_slice(&body);
+                cases.push(pkt);
+            }
+        }
+    }
+    let n = cases.len() as u64;
+    ByteSpace::new("sdes-text-cut-inside-a-character", n, move |idx, out| {
+        out.clear();
+        out.extend_from_slice(&cases[idx as usize]);
+    })
+}
+
 /// S3: all SDES-framed packets whose body is `words` 32-bit words over `alphabet`, P in {0,1}
 /// and count field in `counts`.
 pub fn sdes_bodies_space(words: usize, alphabet: Vec<u8>, counts: Vec<u8>) -> ByteSpace {
@@ -493,7 +533,7 @@ pub fn fci_raw_space() -> ByteSpace {
     })
 }
 
-/// The 12-kind tile menu of C11(a).
+/// The 15-kind tile menu of C11(a).
 pub fn tile_menu() -> Vec<Vec<u8>> {
     vec![
         vec![0x80, 203, 0, 0],                                                 // BYE ok
@@ -508,6 +548,9 @@ pub fn tile_menu() -> Vec<Vec<u8>> {
         vec![0x40, 207, 0, 0],                                                 // unknown type, version 1
         vec![0x80, 200, 0, 0],                                                 // SR of one word: shorter than an SR's minimum
         vec![0x81, 205, 0, 1, 1, 2, 3, 4],                                     // transport feedback of two words: shorter than its minimum
+        vec![0x81, 202, 0, 2, 1, 2, 3, 4, 0x08, 0x02, 0x05, 0x41],             // SDES whose PRIV prefix is longer than its item (an item-level error)
+        vec![0x81, 202, 0, 2, 1, 2, 3, 4, 0x01, 0x09, 0x41, 0x42],             // SDES whose item overruns the packet
+        vec![0x81, 202, 0, 2, 1, 2, 3, 4, 0x08, 0x00, 0x00, 0x00],             // SDES with a PRIV item of length 0
     ]
 }
 
